@@ -225,6 +225,11 @@ class PseudoOperand(Operand):
     def resolve_symbols(self, symbol_table):
         if self.instruction.mnemonic == "END" and self.value.is_symbol():
             self.value.resolve(symbol_table)
+        if self.instruction.mnemonic == "END" and self.value.is_expression():
+            # Only look the symbols up: the expression itself must stay as it is
+            for term in [self.value.left, self.value.right]:
+                if term.is_symbol():
+                    term.resolve(symbol_table)
         return self
 
     def translate(self):
